@@ -329,6 +329,9 @@ func NewMux(opts ...MuxOption) (*Mux, error) {
 		muxOpts.codecsByName[v.Name()] = v
 	}
 	for k := range muxOpts.codecs {
+		if !strings.Contains(k, "/") {
+			continue // keyed by message name (google.api.HttpBody), not a media type
+		}
 		muxOpts.contentTypeOffers = append(muxOpts.contentTypeOffers, k)
 	}
 	sort.Strings(muxOpts.contentTypeOffers)
